@@ -15,7 +15,7 @@ use kanidmd_lib::prelude::*;
 use kvc::srv::*;
 use kvc::util::*;
 use serde_json::{json, Map, Value as J};
-use std::collections::BTreeMap;
+use std::collections::{BTreeMap, BTreeSet};
 
 /// base population of C23 plus protected kinds: built-in range entry b1, system-protected e7, dynamic
 /// group e8, synchronised object e9 (owned by sync account e50); e2 additionally is a group.
@@ -40,15 +40,18 @@ pub async fn write_world() -> QueryServer {
     qs
 }
 
-pub fn population(wr: &mut QueryServerWriteTransaction<'_>) -> BTreeMap<String, J> {
+/// model entries (and, given the uuids known before an operation, any entry that is new)
+pub fn population(wr: &mut QueryServerWriteTransaction<'_>, known: Option<&BTreeSet<Uuid>>) -> (BTreeMap<String, J>, BTreeSet<Uuid>) {
     let mut m = BTreeMap::new();
+    let mut ids = BTreeSet::new();
     for e in search_all(wr) {
         let u = e.get_uuid();
-        if nm(u) != u.to_string() {
+        ids.insert(u);
+        if nm(u) != u.to_string() || known.map(|k| !k.contains(&u)).unwrap_or(false) {
             m.insert(nm(u), proj_entry(&e));
         }
     }
-    m
+    (m, ids)
 }
 
 fn proto_val(a: &str, v: &str) -> String {
@@ -83,7 +86,7 @@ pub async fn do_op(qs: &QueryServer, at: u64, line: &J) -> J {
     }
     if op == "create" {
         let id = line["new"]["id"].as_str().unwrap_or("e60").to_string();
-        o.insert("new".into(), json!({"id": id, "sys": id.starts_with('b'), "live": "live", "o2g": [], "attrs": line["new"]["attrs"]}));
+        o.insert("new".into(), json!({"id": id, "sys": id.starts_with('b') && line["new"]["attrs"].get("uuid").is_some(), "live": "live", "o2g": [], "attrs": line["new"]["attrs"]}));
     } else {
         o.insert("new".into(), json!({"id": "none", "sys": false, "live": "live", "o2g": [], "attrs": {}}));
     }
@@ -92,7 +95,7 @@ pub async fn do_op(qs: &QueryServer, at: u64, line: &J) -> J {
         std::process::exit(2);
     };
     o.insert("id".into(), proj_ident(&ident));
-    let pre = population(&mut wr);
+    let (pre, known) = population(&mut wr, None);
     let mut m: Vec<String> = vec![];
     let res = catch(|| -> Result<(), OperationError> {
         match op.as_str() {
@@ -133,7 +136,7 @@ pub async fn do_op(qs: &QueryServer, at: u64, line: &J) -> J {
     let resc = if panicked { "panic".to_string() } else { res_class(&res) };
     let mut post = Map::new();
     if res.is_ok() {
-        for (k, v) in population(&mut wr) {
+        for (k, v) in population(&mut wr, Some(&known)).0 {
             if pre.get(&k) != Some(&v) {
                 post.insert(k, v);
             }
